@@ -48,7 +48,7 @@ def plan(tier, seed, jobs):
     resume = shard('compiled', 15 if q else 40, 5, part='resume', timeout=3000, time_budget=200 if q else 1700)
     for k, u in enumerate(resume):
         u['scn'] = k % 5
-    second = shard('compiled', 44 if q else 240, 4, part='second', timeout=3000, time_budget=200 if q else 1700)
+    second = shard('compiled', 60 if q else 300, 4, part='second', timeout=3000, time_budget=200 if q else 1700)
     for k, u in enumerate(second):
         u['scn'], u['half'] = k % 2, k // 2
     return crash + resume + second
@@ -354,7 +354,7 @@ def case_second(ctx, i):
     ref = reference(ctx, name)
     n = len(ref['ckpts'])
     j = (i - ctx.unit.get('lo', 0)) * 2 + ctx.unit.get('half', 0) if 'scn' in ctx.unit else i // 2
-    c = 1 + (j // 22 + ctx.seed) % (n - 2)  # (the first save of the resumed run has 8-11 file-system calls on the two files)
+    c = 1 + (j // 30 + ctx.seed) % (n - 2)  # (the first save of the resumed run has 8-11 file-system calls on the two files)
     wd = tempfile.mkdtemp(prefix='s-', dir=ctx._root)
     ext = ref['ext']
     try:
@@ -362,8 +362,13 @@ def case_second(ctx, i):
         # two file sets a first interruption can leave:
         #   'partial': killed in the middle of the write of checkpoint c+1 -> partial output + complete backup; resume from the backup
         #   'clean'  : killed between two saves -> complete output of checkpoint c, no backup; resume from the output file
-        mode = 'partial' if j % 22 < 9 else 'clean'
-        if mode == 'partial':
+        #   'backup_only': killed right after the output was renamed to the backup name (or the partial output was deleted by the
+        #                user) -> only the complete backup of checkpoint c; resume from the backup
+        mode = 'partial' if j % 30 < 9 else ('clean' if j % 30 < 22 else 'backup_only')
+        if mode == 'backup_only':
+            shutil.copy(ref['ckpts'][c - 1], bak_fn)
+            resume_fn = bak_fn
+        elif mode == 'partial':
             shutil.copy(ref['ckpts'][c - 1], bak_fn)
             data = open(ref['ckpts'][c], 'rb').read()
             open(out_fn, 'wb').write(data[:len(data) // 2])
@@ -378,9 +383,10 @@ def case_second(ctx, i):
             o2, b2 = os.path.join(wt, 'out' + ext), os.path.join(wt, 'out.backup' + ext)
             if os.path.exists(bak_fn):
                 shutil.copy(bak_fn, b2)
-            shutil.copy(out_fn, o2)
+            if os.path.exists(out_fn):
+                shutil.copy(out_fn, o2)
             log = os.path.join(wt, 'strace.log')
-            rc, out, err = child(wt, 'resume', {'record': False, 'resume_from': b2 if mode == 'partial' else o2},
+            rc, out, err = child(wt, 'resume', {'record': False, 'resume_from': o2 if mode == 'clean' else b2},
                                  strace={'paths': [o2, b2], 'log': log})
             if rc != 0:
                 ctx.violation('second:resume-from-backup-fails', (out + err)[-900:], {'scenario': name, 'checkpoint': c})
@@ -398,8 +404,8 @@ def case_second(ctx, i):
                     pts.append((m.group(1), counts[m.group(1)]))
                     if m.group(1) in ('rename', 'renameat', 'renameat2'):
                         renamed = True
-                    if renamed and m.group(1) in ('unlink', 'unlinkat'):
-                        break  # the unlink of the backup after the rename ends the first save
+                    if (renamed or mode == 'backup_only') and m.group(1) in ('unlink', 'unlinkat'):
+                        break  # the unlink of the backup (after the rename, if there was an output file) ends the first save
                     if len(pts) >= 40:
                         break
                 ctx._refs[key] = pts
@@ -407,9 +413,11 @@ def case_second(ctx, i):
         pts = ctx._refs[key]
         if not pts:
             raise _Skip()
-        sc, k = pts[(j % 22 if mode == 'partial' else j % 22 - 9) % len(pts)]
-        case = {'scenario': name, 'first_interruption_left': ('partial output of checkpoint %d + complete backup of checkpoint %d' % (c + 1, c))
-                if mode == 'partial' else 'complete output of checkpoint %d, no backup' % c, 'resumed_from': os.path.basename(resume_fn),
+        sc, k = pts[{'partial': j % 30, 'clean': j % 30 - 9, 'backup_only': j % 30 - 22}[mode] % len(pts)]
+        case = {'scenario': name, 'first_interruption_left': {'partial': 'partial output of checkpoint %d + complete backup of checkpoint %d' % (c + 1, c),
+                                                               'clean': 'complete output of checkpoint %d, no backup' % c,
+                                                               'backup_only': 'complete backup of checkpoint %d, no output file' % c}[mode],
+                'resumed_from': os.path.basename(resume_fn),
                 'syscall': sc, 'occurrence': k}
         ctx.count('second.mode.' + mode)
         rc, out, err = child(wd, 'resume', {'record': False, 'resume_from': resume_fn},
@@ -427,7 +435,11 @@ def case_second(ctx, i):
         case['files'] = {kk: (list(v) if v else None) for kk, v in files.items()}
         case['saves_completed'] = n_saved(out)
         if not valid:
-            if mode == 'partial':
+            if mode == 'backup_only':
+                # (here the save procedure does not touch the backup before the new file is complete: nothing may destroy it)
+                ctx.violation('crash-after-resume-from-backup-only:no-complete-results-file-left', 'resumed from the complete backup of '
+                              'checkpoint %d (no output file); killed during the first save of the resumed run: %r' % (c, case['files']), case)
+            elif mode == 'partial':
                 ctx.violation('second-crash:no-complete-results-file-left', 'the only complete file (backup of checkpoint %d) was destroyed '
                               'before a new complete file existed: %r' % (c, case['files']), case)
             else:
@@ -436,6 +448,7 @@ def case_second(ctx, i):
         elif max(valid) < c + n_saved(out):
             ctx.violation('second-crash:only-an-older-checkpoint-left', '%r' % case['files'], case)
         ctx.sig((name, 'second', mode, c, sc, k), nontrivial=True)
+        ctx.count('second.crash_points.' + mode)
         if j % 6 == 0:
             ctx.sample(case)
     finally:
